@@ -25,7 +25,12 @@
       C19_exit           exit code = 3 iff the command ended with an error before/outside task execution, else
                          0 / 1 / 2 as the function exitSpec of the failure kinds reported
       C19_json           -r json: the output is a single valid JSON document {tasks, out, err}, nothing else on
-                         stdout / stderr, each task with a final report listed once with that result
+                         stdout / stderr, each task with a final report listed once with that result; the task list
+                         equals what the bookkeeping model (jsonOf) yields for the callbacks that really happened
+      C19_output         console family: the lines the real reporter wrote are exactly the lines it has to write
+                         (Lean `render`) for the callbacks that really happened: one `.  t` per announced task with
+                         actions, one `-- t` / `!! t` per skipped task (console), one failure header per failure, the
+                         complete_run sections of executed failed tasks; nothing for the zero reporter
 request to the driver: {"model":"c19", <fields of runlib.expand(case)>, "reporter": kind, "trace": full trace,
     "exit": int, "err": ""|"cyclic"|..., "doc": [[task id, result, timed]] (json only)}
 """
@@ -43,6 +48,7 @@ import runlib
 PROP = 'C19'
 KINDS = ['console', 'executed-only', 'zero', 'error-only', 'json']
 KEYS = ['C19_report_order', 'C19_exec_iff_start', 'C19_truth', 'C19_end_reported', 'C19_exit', 'C19_json']
+OUT_KEY = 'C19_output'
 
 META = {
     'property': PROP,
@@ -399,6 +405,35 @@ def observe(case, keep_raw=True):
     return obs
 
 
+def _sorted_doc(doc):
+    return sorted(doc, key=lambda x: (x[0], str(x[1]), x[2]))
+
+
+def failed_monitors(case, obs, ans):
+    """names of the monitors that are false for this observation (Lean monitors, Python cross-check, and the real
+    reporter output compared with what the reporter has to print for the callbacks that really happened)"""
+    kind = case.get('reporter', 'console')
+    py, _ = py_monitor(case, obs)
+    lean = (ans.get('monitor') or {}) if ans and 'error' not in ans else None
+    failed = [k for k in KEYS if lean is not None and not lean.get(k, True)]
+    if not py['C19_exit'] and 'C19_exit' not in failed:
+        failed.append('C19_exit')
+    if not py['C19_exec_iff_start'] and 'C19_exec_iff_start' not in failed:
+        failed.append('C19_exec_iff_start')
+    if not py['C19_report_order_counts'] and 'C19_report_order' not in failed:
+        failed.append('C19_report_order')
+    if kind == 'json':
+        bad = bool(obs.get('problems'))
+        if lean is not None and obs.get('doc') is not None and (
+                not isinstance(ans.get('json'), list) or _sorted_doc(ans['json']) != _sorted_doc(obs['doc'])):
+            bad = True          # (the ORDER of the list is not part of the property: compared as correspondence only)
+        if bad and 'C19_json' not in failed:
+            failed.append('C19_json')
+    elif lean is not None and obs['err'] is None and ans.get('render') != obs.get('tokens'):
+        failed.append(OUT_KEY)
+    return failed
+
+
 def judge(case, obs, ans, base_ans, st, shrink_left):
     """decision rules for one (case, observation); returns seconds spent shrinking"""
     st.traces += 1
@@ -409,17 +444,7 @@ def judge(case, obs, ans, base_ans, st, shrink_left):
         st.count('driver_unavailable')
     else:
         lean = ans.get('monitor') or {}
-    failed = []
-    if lean is not None:
-        failed = [k for k in KEYS if not lean.get(k, True)]
-    if not py['C19_exit'] and 'C19_exit' not in failed:
-        failed.append('C19_exit')
-    if not py['C19_exec_iff_start'] and 'C19_exec_iff_start' not in failed:
-        failed.append('C19_exec_iff_start')
-    if not py['C19_report_order_counts'] and 'C19_report_order' not in failed:
-        failed.append('C19_report_order')
-    if kind == 'json' and obs['problems'] and 'C19_json' not in failed:
-        failed.append('C19_json')
+    failed = failed_monitors(case, obs, ans)
     if failed:
         first = failed[0]
 
@@ -428,13 +453,7 @@ def judge(case, obs, ans, base_ans, st, shrink_left):
             c['reporter'] = kind
             o = observe(c)
             a = ask19([(c, o)])[0]
-            l = (a.get('monitor') or {}) if 'error' not in a else {}
-            p, _ = py_monitor(c, o)
-            bad = [k for k in KEYS if not l.get(k, True)]
-            if not p['C19_exit']:
-                bad.append('C19_exit')
-            if kind == 'json' and o['problems']:
-                bad.append('C19_json')
+            bad = failed_monitors(c, o, a)
             return first in bad
         small, used = case, 0.0
         if shrink_left > 0:
@@ -463,17 +482,11 @@ def judge(case, obs, ans, base_ans, st, shrink_left):
         if py['C19_exit'] != lean.get('C19_exit', True):
             st.divergence(make_witness(case, obs, ans), 'python and Lean exit-code monitors disagree')
             return 0
-        if kind == 'json':
-            if obs.get('doc') is not None and ans.get('json') != obs['doc']:
-                st.divergence(make_witness(case, obs, ans),
-                              'correspondence JsonReporter: real task list %s, model %s' % (obs['doc'], ans.get('json')))
-                return 0
-        else:
-            if ans.get('render') != obs.get('tokens'):
-                st.divergence(make_witness(case, obs, ans),
-                              'correspondence %s reporter: real output %s, model %s'
-                              % (kind, obs.get('tokens'), ans.get('render')))
-                return 0
+        if kind == 'json' and obs.get('doc') is not None and ans.get('json') != obs['doc']:
+            st.divergence(make_witness(case, obs, ans),
+                          'correspondence JsonReporter: order of the real task list %s differs from the model\'s %s'
+                          % (obs['doc'], ans.get('json')))
+            return 0
     if base_ans is not None and 'error' not in base_ans:
         if base_ans.get('skipped'):
             st.count('model_search_skipped')
@@ -491,15 +504,7 @@ def judge(case, obs, ans, base_ans, st, shrink_left):
 def make_witness(case, obs, ans):
     lean = (ans or {}).get('monitor') if ans and 'error' not in ans else None
     py, det = py_monitor(case, obs)
-    failed = [k for k in KEYS if lean is not None and not lean.get(k, True)]
-    if not py['C19_exit'] and 'C19_exit' not in failed:
-        failed.append('C19_exit')
-    if not py['C19_exec_iff_start'] and 'C19_exec_iff_start' not in failed:
-        failed.append('C19_exec_iff_start')
-    if not py['C19_report_order_counts'] and 'C19_report_order' not in failed:
-        failed.append('C19_report_order')
-    if case.get('reporter') == 'json' and obs.get('problems') and 'C19_json' not in failed:
-        failed.append('C19_json')
+    failed = failed_monitors(case, obs, ans)
     det = dict(det)
     det['exit'] = obs['exit']
     if obs.get('problems'):
